@@ -33,6 +33,7 @@ type C12Case struct {
 	DevType    int        `json:"dev_type"` // input.DeviceType
 	Noise      []c12Noise `json:"noise"`
 	MissingDir int        `json:"missing_dir"` // -1: all four directories exist
+	Nested     [8]bool    `json:"nested"`      // candidate k of class c (index 4*c+k) lives in a nested sub-directory
 	Others     []int      `json:"others"`      // directories that also hold a valid config of some other device
 }
 
@@ -109,6 +110,9 @@ func c12Setup(c *C12Case) (string, error) {
 			if k%2 == 1 {
 				id = zero
 				name = "0_default.toml"
+			}
+			if c.Nested[4*class+k] {
+				name = filepath.Join("by-room", "office", name)
 			}
 			if err := write(dir, name, []byte(c12Config(cls+"-"+c12Tags[k], id))); err != nil {
 				return root, err
@@ -235,6 +239,9 @@ func checkC12(c C12Case) (bool, *Violation) {
 		return false, violation("C12", "harness", "", "chdir: %v", herr)
 	}
 	nontrivial := len(c.Noise) > 0 || c.MissingDir >= 0
+	for _, nst := range c.Nested {
+		classifyIf(nst, "a candidate file in a nested sub-directory")
+	}
 	return nontrivial, v
 }
 
@@ -283,6 +290,9 @@ func genC12(t *rapid.T) C12Case {
 		c.Query[rapid.IntRange(0, 3).Draw(t, "mismatchField")] ^= 0x0100
 	}
 	c.DevType = rapid.SampledFrom([]int{1, 1, 3, 3, 0, 2, 7}).Draw(t, "devType")
+	for i := range c.Nested {
+		c.Nested[i] = rapid.IntRange(0, 4).Draw(t, "nestedCandidate") == 0
+	}
 	n := rapid.IntRange(0, 6).Draw(t, "noise")
 	for i := 0; i < n; i++ {
 		kind := rapid.SampledFrom(c12NoiseKinds).Draw(t, "noiseKind")
